@@ -53,7 +53,8 @@ Rest(n, off)           == Fld(n, off, 0, 0, 0, "rest")
 \* payload length rules (len >= 0 is a fixed length)
 RestMin1   == -2   \* the payload is the rest of the stream, at least one octet
 GroupMask  == -3   \* TS005 McGroupStatusAns: 1 + 5 * (number of bits set in Status[3:0])
-CondTTS    == -4   \* TS005 McClass{C,B}SessionAns: 1 if an error bit of Status is set, else 1 + 3
+CondTTS    == -4   \* TS005 McClass{C,B}SessionAns (DISPUTED, see McUpCmds): 1 if an error bit of Status is set,
+                   \* else 1 + 3  --  or always 1 + 3; both readings are accepted
 NoCmd      == -1   \* CID not defined for the set
 
 \* fields: the layout proper (a partition of the payload bits, checked by MCCmds!Tiles)
@@ -165,10 +166,14 @@ McDownCmds == <<
 
 \* McGroupStatusAns: Status (RFU:1 | NbTotalGroups:3 | AnsGroupMask:4) followed by one
 \* (McGroupID:1 | McAddr:4) record per bit set in AnsGroupMask.
-\* McClass{C,B}SessionAns: Status&McGroupID | (cond) TimeToStart; TS005 marks TimeToStart as
-\* conditional: it is present only when no error bit of the status is set (rule CondTTS; this is
-\* also what Semtech's LoRaMac-node emits).  No copy of TS005 is available in this environment, so the
-\* rule rests on recollection; see ItemsFixedTTS below for the unconditional reading.
+\* DISPUTED ENTRY (DESIGN 7.1) - McClass{C,B}SessionAns (CID 0x04 / 0x05 of the uplink set):
+\* Status&McGroupID | TimeToStart.  As recalled, TS005 marks TimeToStart as conditional (present only
+\* when no error bit of the status is set; this is also what Semtech's LoRaMac-node emits): rule CondTTS.
+\* The library frames a fixed 4-octet payload.  No copy of TS005 is available in this environment to
+\* adjudicate, so BOTH readings are accepted: a yielded item list is correct when it equals Items under
+\* the conditional reading or under the unconditional one (ItemsAccepted below); the same holds for
+\* the payload constructors.  Whatever the library does today is thereby pinned: a change to anything
+\* other than one of the two readings is reported.
 McUpCmds == <<
     Cmd(0, "PackageVersionAns", 2, <<Oct("PackageIdentifier", 0), Oct("PackageVersion", 1)>>, <<>>),
     Cmd(1, "McGroupStatusAns", GroupMask,
@@ -261,6 +266,9 @@ ItemsFrom(tab, b, i, fixedTTS) ==
 Items(set, b)         == ItemsFrom(LenTab(set), b, 1, FALSE)
 \* the reading in which TimeToStart of McClass{C,B}SessionAns is always present
 ItemsFixedTTS(set, b) == ItemsFrom(LenTab(set), b, 1, TRUE)
+\* What an implementation may yield: the list of one of the two readings of the disputed entry, applied
+\* to the whole stream (for every set other than mc_up the two coincide, MCCmds!ItemsLemma).
+ItemsAccepted(set, b, out) == out = Items(set, b) \/ (set = "mc_up" /\ out = ItemsFixedTTS(set, b))
 
 \* The property C03 states about any yielded list, independent of the tables:
 \* only whole commands, lengths add up to a prefix of the input, CIDs are the octets at the
